@@ -23,7 +23,7 @@ PROPS = {
     'C14': {'units': ['pack'], 'kani': []},
     'C12': {'units': ['bits', 'chal'], 'kani': [], 'only': {'chal': r'canonical_width'}},
     'C15': {'units': ['shape'], 'kani': []},
-    'C13': {'units': ['sym'], 'kani': []},
+    'C13': {'units': ['sym', 'symx'], 'kani': []},
     'C09': {'units': ['prep'], 'kani': []},
     'C08': {'units': ['mmcs', 'hash', 'mbind'], 'kani': []},
     'C16': {'units': ['meta'], 'kani': []},
@@ -190,7 +190,7 @@ META['C13'] = {
             'work stack, run symbolically on a stack of nodes, yields exactly [root] and every value on the stack denotes its node; the shared cache stays sound (each key maps to a target denoting its node); '
             'termination is proved (weighted size of pending work) and no `pop` can fail. resolve_base_var / resolve_ext_var read the slice the native folder reads for each entry kind and row offset. '
             'The two folding loops of eval_folded_circuit compute the native accumulation acc = acc*alpha + c over base constraints first, then extension constraints.',
-    'note': 'compile_ext is an ASSUMED callee contract of the same shape (not under contract). The prefix of eval_folded_circuit (AirLayout, p3 get_symbolic_constraints) is opaque: the folding part is a '
+    'note': 'compile_ext is proved in unit symx by the same work-stack refinement (base sub-expressions delegated to compile_base, whose contract is the callee contract there; extension variables read through resolve_ext_var; two shared caches stay sound); in unit sym it is the callee contract of the folding slice. The prefix of eval_folded_circuit (AirLayout, p3 get_symbolic_constraints) is opaque: the folding part is a '
             'slice extraction (R13) with the two constraint lists as parameters. Assumed: the cache key `node as *const _` identifies one node (NodeKey abstraction); p3-air expression types mirrored in the '
             'prelude with Box instead of Arc; variables address existing opened values inside the two-row window (vars_in_range); builder arithmetic contracts.',
 }
